@@ -15,7 +15,7 @@ TICK_BUDGET = 400
 class StepRec:
     __slots__ = ("idx", "seq0", "seq1", "t_in", "dig_in", "dt", "dtmin", "dt_is_array",
                  "dt_dig", "t_out", "dig_out", "finite_out", "status", "obj", "kind",
-                 "tick_idx", "rhs0", "rhs1", "clone", "data_out")
+                 "tick_idx", "rhs0", "rhs1", "clone", "data_out", "data_in", "etick")
 
     def as_tuple(self):
         return (self.idx, self.kind, self.t_in, self.dig_in, self.dt_dig, self.dtmin,
@@ -181,6 +181,12 @@ class Recorder:
         s.idx = len(self.op.steps)
         s.t_in = float(f.time)
         s.dig_in = digest_field(f)
+        s.data_in = [np.array(d, copy=True) for d in f.data]
+        s.etick = None
+        if self.op.counts["step"] >= 4 * TICK_BUDGET:
+            self.op.budget_hit = True
+            self.ev("budget-steps")
+            raise SimBudget("step budget exhausted")
         if np.ndim(dt) == 0:
             s.dt = float(dt)
             s.dtmin = float(dt)
@@ -288,3 +294,76 @@ class FlushSink:
 
     def getvalue(self):
         return b"".join(self.chunks)
+
+
+# --------------------------------------------------------------------------
+# allocator seam: module-global `np` of the flowdyn modules
+
+
+ALLOC_FUNCS = ["zeros", "zeros_like", "ones", "full_like", "repeat", "diag", "vstack", "hstack",
+               "where", "array", "append", "sqrt", "maximum", "minimum", "abs", "sum", "average",
+               "square", "expand_dims", "arange", "linspace"]
+
+
+class NpProxy:
+    """Forwards everything to numpy; the array-producing entry points flowdyn uses
+    count as allocation events and may raise MemoryError at the k-th call."""
+
+    def __init__(self, rec):
+        d = self.__dict__
+        d["_rec"] = rec
+        for name in ALLOC_FUNCS:
+            d[name] = self._wrap(getattr(np, name), rec)
+
+    @staticmethod
+    def _wrap(fn, rec):
+        def alloc(*a, **kw):
+            if rec.op is not None:
+                rec._hit("alloc")
+            return fn(*a, **kw)
+        return alloc
+
+    def __getattr__(self, name):
+        v = getattr(np, name)
+        self.__dict__[name] = v
+        return v
+
+
+def flowdyn_modules():
+    import flowdyn._data
+    import flowdyn.field
+    import flowdyn.integration
+    import flowdyn.mesh
+    import flowdyn.meshbase
+    import flowdyn.modeldisc
+    import flowdyn.modelphy.burgers
+    import flowdyn.modelphy.convection
+    import flowdyn.modelphy.euler
+    import flowdyn.modelphy.shallowwater
+    import flowdyn.xnum
+    return [flowdyn._data, flowdyn.field, flowdyn.integration, flowdyn.mesh, flowdyn.meshbase,
+            flowdyn.modeldisc, flowdyn.modelphy.burgers, flowdyn.modelphy.convection,
+            flowdyn.modelphy.euler, flowdyn.modelphy.shallowwater, flowdyn.xnum]
+
+
+class patched_np:
+    def __init__(self, rec, active):
+        self.rec = rec
+        self.active = active
+        self.saved = []
+
+    def __enter__(self):
+        if not self.active:
+            return self
+        proxy = NpProxy(self.rec)
+        for m in flowdyn_modules():
+            if hasattr(m, "np"):
+                self.saved.append((m, m.np))
+                m.np = proxy
+        return self
+
+    def __exit__(self, *exc):
+        for m, old in self.saved:
+            m.np = old
+        self.saved = []
+        return False
